@@ -222,3 +222,18 @@ CHECKS["C11"] = {
         {"bin": "asan/C11", "cases": P(28, 500), "procs": P(8, 16), "size": 70, "shrink_budget": 40, "cpu_limit": 300},
     ],
 }
+
+TOOLS_WRAP = ["asan/tools-wrap/zck", "asan/tools-wrap/unzck"]
+
+CHECKS["C12"] = {
+    "level": "fault_enumeration",
+    "technique": "fault-point enumeration through syscall interposition (-Wl,--wrap=read,write,lseek,ftruncate): per generated scenario instance (write, read, three validators, chunk copy, download callbacks, tools zck/unzck) a fault-free run counts the calls, then every k-th call of every kind is failed once with every applicable fault (EIO, ENOSPC, EINTR, short half/1/0) plus sampled double faults; oracle = success indications are compared with the bytes that really reached the descriptors (reference decode, content equality, reference chunk digests)",
+    "level_text": "Single faults are enumerated exhaustively per scenario instance (every call index of every kind up to 120, thorough 400, per kind; sampled above that; tools: up to 14/60 call indexes per kind because each run is a process), scenario instances are generated. A short count really transfers only that many bytes, so what the descriptor holds afterwards is exactly what reached it.",
+    "level_note": "Trusted: reference decoder/digests; interposition covers read/write/lseek/ftruncate on descriptors >= 3 (input, output, temporary, source, target). A read returning 0 is end-of-file by definition and is not injected as a fault. A validator returning 1 on an intact file after a retried short read is legitimate; violations are successes that contradict the file contents.",
+    "rule": "case = scenario instance x (kind, k, fault) [x second fault]. Non-trivial = the planned fault was actually reached (iof_hit); distinct = (instance, plan) by construction.",
+    "assumptions": ["faults below the system-call interface (page cache, disk) are out of scope", "descriptors 0-2 are never faulted"],
+    "extra_targets": TOOLS_WRAP,
+    "runs": [
+        {"bin": "asan/C12", "cases": P(40, 700), "procs": P(8, 16), "size": 70, "shrink_budget": 40, "cpu_limit": 300},
+    ],
+}
